@@ -1158,4 +1158,191 @@ theorem initBlock_eq (lv : List (Name × Nat)) (initLabels : List (Name × List 
       refine ⟨_, hmem, ?_, by intro n' pos' h h'; cases h; cases h'; rfl, by simp⟩
       exact setVar_zeros _ (binaryLabels_nodup k n) _ hmem v
 
+/-! ### whole model -/
+
+theorem rhsOf_append (a b : List LRxn) (σ : LName → Rat) (n : LName) :
+    rhsOf (a ++ b) σ n = rhsOf a σ n + rhsOf b σ n := by
+  simp [rhsOf, List.map_append, List.sum_append]
+
+theorem rhsOf_flatten_sum (gs : List (List LRxn)) (σ : LName → Rat) (L : List LName) :
+    (L.map (rhsOf gs.flatten σ)).sum = (gs.map fun g => (L.map (rhsOf g σ)).sum).sum := by
+  induction gs with
+  | nil =>
+    have : rhsOf [] σ = fun _ => (0 : Rat) := by funext n; rfl
+    simp [this, sum_map_zero]
+  | cons g gs ih =>
+    simp only [List.flatten_cons, List.map_cons, List.sum_cons, ← ih]
+    rw [← sum_map_add]
+    apply congrArg
+    apply List.map_congr_left
+    intro n _
+    exact rhsOf_append g gs.flatten σ n
+
+theorem totalsEnv_eq_totalName (lv : List (Name × Nat)) (σ : LName → Rat)
+    (hσ : ∀ k n, lv.lookup k = some n → σ (plain (k ++ "__total")) = totalOf σ k n) (a : Name) :
+    totalsEnv lv σ a = σ (totalName lv a) := by
+  unfold totalsEnv totalName labelsOf
+  cases h : lv.lookup a with
+  | none => simp
+  | some n =>
+    simp only [Option.getD_some]
+    rw [hσ a n h]
+    by_cases hn : n > 0
+    · simp [hn]
+    · have : n = 0 := by omega
+      subst this
+      simp [totalOf, binaryLabels, plain, Rat.add_zero]
+
+theorem netStoich_eq_lookup (st : List (Name × Int)) (x : Name) (hnd : (st.map (·.1)).Nodup) :
+    netStoich st x = (st.lookup x).getD 0 := by
+  induction st with
+  | nil => simp [netStoich]
+  | cons kv rest ih =>
+    obtain ⟨k, v⟩ := kv
+    simp only [List.map_cons, List.nodup_cons] at hnd
+    simp only [netStoich, List.map_cons, List.sum_cons, List.lookup] at ih ⊢
+    by_cases e : k = x
+    · subst e
+      have : ∀ p ∈ rest, ¬ p.1 = k := by
+        intro p hp e; exact hnd.1 (List.mem_map.mpr ⟨p, hp, e⟩)
+      have hz : (rest.map fun kv => if kv.1 = k then kv.2 else 0) = rest.map fun _ => (0 : Int) := by
+        apply List.map_congr_left; intro p hp; simp [this p hp]
+      rw [hz]
+      have : (rest.map fun _ => (0 : Int)).sum = 0 := by
+        clear ih hz this hnd; induction rest with
+        | nil => rfl
+        | cons a l ih => simp [ih]
+      simp [this]
+    · have hb : (x == k) = false := by simpa using fun h => e h.symm
+      simp only [e, if_false, hb, Int.zero_add]
+      exact ih hnd.2
+
+theorem netStoich_zero_of_not_mem (st : List (Name × Int)) (x : Name) (h : ∀ kv ∈ st, kv.1 ≠ x) :
+    netStoich st x = 0 := by
+  induction st with
+  | nil => rfl
+  | cons kv rest ih =>
+    simp only [netStoich, List.map_cons, List.sum_cons] at ih ⊢
+    rw [ih (fun p hp => h p (List.mem_cons_of_mem _ hp))]
+    simp [h kv List.mem_cons_self]
+
+theorem lookup_map_plain (st : List (Name × Int)) (x : Name) :
+    (st.map fun kv => (plain kv.1, kv.2)).lookup (plain x) = st.lookup x := by
+  induction st with
+  | nil => rfl
+  | cons kv rest ih =>
+    obtain ⟨k, v⟩ := kv
+    simp only [List.map_cons, List.lookup]
+    by_cases e : x = k
+    · subst e; simp
+    · have h1 : (x == k) = false := by simpa using e
+      have h2 : (plain x == plain k) = false := by simpa [plain] using e
+      rw [h1, h2]; exact ih
+
+theorem lookup_map_plain_some (st : List (Name × Int)) (x : Name) (w : Label) :
+    (st.map fun kv => (plain kv.1, kv.2)).lookup ⟨x, some w⟩ = none := by
+  induction st with
+  | nil => rfl
+  | cons kv rest ih =>
+    have : ((⟨x, some w⟩ : LName) == plain kv.1) = false := by simp [plain]
+    simp only [List.map_cons, List.lookup, this]; exact ih
+
+theorem unit_stoich_mem {lv : List (Name × Nat)} {r : BRxn} {lm : List Nat} {rs : List LRxn}
+    (h : isotopomerReactions lv r lm = .ok rs) (hwf : nProd lv r ≤ lm.length) :
+    ∀ rx ∈ rs, ∀ x : Name,
+      ((binaryLabels x (labelsOf lv x)).map (coefOf rx.stoich)).sum = netStoich r.stoich x := by
+  intro rx hrx x
+  obtain ⟨w, hw, ps, hps, rfl⟩ := gen_of_mem h rx hrx
+  exact unit_stoich_isoRxnOf lv r lm w ps hw hps hwf x
+
+theorem dynamics_core {lv : List (Name × Nat)} {r : BRxn} {lm : List Nat} {rs : List LRxn}
+    (hok : isotopomerReactions lv r lm = .ok rs) (hwf : nProd lv r ≤ lm.length)
+    (hm : MassAction lv r) (hd : DistinctOccurrences lv r) (σ : LName → Rat) (x : Name) :
+    ((binaryLabels x (labelsOf lv x)).map (rhsOf rs σ)).sum
+      = (netStoich r.stoich x : Rat) * r.rate (totalsEnv lv σ) := by
+  have hr : rhsOf rs σ = fun n => (rs.map fun rx => (coefOf rx.stoich n : Rat) * rx.rate σ).sum := by
+    funext n; rfl
+  rw [hr, sum_swap]
+  have : ∀ rx ∈ rs, ((binaryLabels x (labelsOf lv x)).map fun n =>
+      ((coefOf rx.stoich n : Int) : Rat) * rx.rate σ).sum
+        = (netStoich r.stoich x : Rat) * rx.rate σ := by
+    intro rx hrx
+    rw [sum_map_mul_right, ← unit_stoich_mem hok hwf rx hrx x, intCast_sum, List.map_map]
+    rfl
+  rw [List.map_congr_left this, sum_map_mul_left, collapse_core hok hd hm σ]
+
+
+
+theorem buildModel_rxns {b : Base} {lv : List (Name × Nat)} {maps : List (Name × List Nat)}
+    {il : List (Name × List Nat)} {m : LModel} (hb : buildModel b lv maps il = .ok m) :
+    ∃ groups, b.rxns.mapM (buildRxn lv maps) = .ok groups ∧ m.rxns = groups.flatten ∧
+      m.vars = buildVars lv il b.vars ∧ m.pars = b.pars := by
+  unfold buildModel at hb
+  cases hg : b.rxns.mapM (buildRxn lv maps) with
+  | error e => rw [hg] at hb; simp [bind, Except.bind] at hb
+  | ok groups =>
+    rw [hg] at hb
+    simp only [bind, Except.bind, pure, Except.pure, Except.ok.injEq] at hb
+    subst hb
+    exact ⟨groups, rfl, rfl, rfl, rfl⟩
+
+theorem group_dynamics {lv : List (Name × Nat)} {maps : List (Name × List Nat)} {r : BRxn}
+    {grp : List LRxn} (hg : buildRxn lv maps r = .ok grp) (hr : RxnOk lv maps r)
+    (σ : LName → Rat)
+    (hσ : ∀ k n, lv.lookup k = some n → σ (plain (k ++ "__total")) = totalOf σ k n) (x : Name) :
+    ((binaryLabels x (labelsOf lv x)).map (rhsOf grp σ)).sum
+      = (netStoich r.stoich x : Rat) * r.rate (fun a => σ (totalName lv a)) := by
+  have henv : totalsEnv lv σ = fun a => σ (totalName lv a) :=
+    funext (totalsEnv_eq_totalName lv σ hσ)
+  unfold buildRxn at hg
+  unfold RxnOk at hr
+  cases hl : maps.lookup r.name with
+  | some lm =>
+    rw [hl] at hg hr
+    simp only at hg hr
+    rw [dynamics_core hg hr.1 hr.2.1 hr.2.2 σ x, henv]
+  | none =>
+    rw [hl] at hg hr
+    simp only [pure, Except.pure, Except.ok.injEq] at hg hr
+    subst hg
+    have hrate : rhsOf [unmappedRxn lv r] σ
+        = fun n => ((coefOf (r.stoich.map fun kv => (plain kv.1, kv.2)) n : Int) : Rat)
+            * r.rate (fun a => σ (totalName lv a)) := by
+      funext n
+      simp [rhsOf, unmappedRxn, LRxn.rate, BRxn.rate, List.map_map, Function.comp_def, Rat.add_zero]
+    rw [hrate]
+    rw [sum_map_mul_right]
+    congr 1
+    cases hx : lv.lookup x with
+    | some n =>
+      have hz : netStoich r.stoich x = 0 := by
+        apply netStoich_zero_of_not_mem
+        intro kv hkv e
+        have := hr.1 kv hkv
+        rw [e, hx] at this; cases this
+      rw [hz]
+      have : ∀ n' ∈ binaryLabels x (labelsOf lv x),
+          ((coefOf (r.stoich.map fun kv => (plain kv.1, kv.2)) n' : Int) : Rat) = 0 := by
+        intro n' hn'
+        unfold binaryLabels at hn'
+        split at hn'
+        · obtain ⟨w, _, rfl⟩ := List.mem_map.mp hn'
+          simp [coefOf, lookup_map_plain_some]
+        · simp only [List.mem_singleton] at hn'
+          subst hn'
+          have hnone : r.stoich.lookup x = none := by
+            apply lookup_none_of_forall
+            intro p hp e
+            have := hr.1 p hp
+            rw [e, hx] at this; cases this
+          have := lookup_map_plain r.stoich x
+          show (((coefOf (r.stoich.map fun kv => (plain kv.1, kv.2)) (plain x) : Int)) : Rat) = 0
+          simp [coefOf, this, hnone]
+      rw [List.map_congr_left this, sum_map_zero]; simp
+    | none =>
+      rw [binaryLabels_labelsOf lv x hx]
+      simp only [List.map_cons, List.map_nil, List.sum_cons, List.sum_nil, Rat.add_zero]
+      rw [netStoich_eq_lookup _ _ hr.2]
+      simp [coefOf, lookup_map_plain]
+
 end Mxl.C05
